@@ -146,6 +146,9 @@ func (ex *Exec) visitInstr(fr *Frame, instr ssa.Instruction) continuation {
 		fr.env[instr] = &MapV{keyT: instr.Type().Underlying().(*types.Map).Key(), index: map[string]int{}}
 
 	case *ssa.Range:
+		if m, ok := fr.get(instr.X).(*MapV); ok {
+			ex.noteMapRead(fr, m)
+		}
 		fr.env[instr] = ex.rangeIter(fr, fr.get(instr.X), instr.X.Type())
 
 	case *ssa.Next:
@@ -233,6 +236,9 @@ func (ex *Exec) visitInstr(fr *Frame, instr ssa.Instruction) continuation {
 		}
 
 	case *ssa.Lookup:
+		if m, ok := fr.get(instr.X).(*MapV); ok {
+			ex.noteMapRead(fr, m)
+		}
 		fr.env[instr] = ex.lookup(fr, instr, fr.get(instr.X), fr.get(instr.Index))
 
 	case *ssa.MapUpdate:
